@@ -62,6 +62,10 @@ def dc_axioms(h, base, top):
           assumption="X-COPY: copy.deepcopy(x) returns a structure isomorphic to x all of whose mutable nodes (lists, dicts, "
                      "lark Trees/Tokens) are newly allocated; immutable values are shared; x is not modified")
 def deepcopy(eng, s, args, kwargs):
+    if len(args) != 1 or kwargs:
+        # an explicit memo shares copies between calls: outside X-COPY, undecided rather than modelled wrongly
+        from pyvc.engine import Unsupported
+        raise Unsupported("copy.deepcopy with an explicit memo")
     (x,) = args
     x = eng.as_val(s, x)
     if x.ty in ("none", "bool", "int", "float", "str"):
